@@ -18,6 +18,15 @@
                       dropped it -- it can then never be delivered intact, which T1 reports)
      Feed      n      the next n bytes of the stream reached the reader's buffer
                       (any segmentation: a Feed may end inside a message or span several)
+     Noise     c, n   n bytes entered the stream (behind everything sent so far) that belong to NO message:
+                      c = 1  the ENVIRONMENT put them there -- a peer that is not gallia code emitting a
+                             keep-alive (a blank / whitespace-only line).  The statement speaks of sequences of
+                             messages only: what a read reports for such an item is unspecified (it may be
+                             skipped silently, reported as an empty read or as an error), see NoiseNext
+                      c = 0  the SENDER UNDER TEST (the virtual ECU's server loop / transport.write) put them
+                             there outside of any message.  Accounted for only (the wire format is free, a
+                             reader that skips them delivers exactly the messages); nothing is relaxed: what
+                             the reads report is judged by T1..T3 as if they were not there
      Close            the peer closed; nothing is fed afterwards (end-of-stream)
      SenderClose      the user of the SENDING transport called close() after its last write() had returned
      ReadBegin to     a read starts; to = its timeout in ms, 0 = none
@@ -28,6 +37,8 @@
                         "Empty"    the read reported end-of-stream (empty read / server loop ended)
                         "Error"    the read raised an error (anything that is not a message)
                         "Hang"     the read never ended although nothing more can happen
+                        "Overdue"  the read was still pending n (virtual) ms after it began, when the
+                                   harness's watchdog gave it up (n is the ReadEnd event's n field)
 
    Nothing of the wire format, of asyncio, or of the code's constants is used:
    a message is "completely sent" when all n bytes of its Send have been fed.
@@ -35,7 +46,10 @@
    Clauses (labels are reported verbatim):
      T1  delivered is a prefix of sent, one message per successful read, intact, in order;
          a completely buffered message is delivered by the read that finds it
-     T2  a timed-out read consumes nothing: the next read returns the complete next message
+     T2  a timed-out read consumes nothing: the next read returns the complete next message.
+         The clause presupposes that a read with a timeout DOES time out: a read(timeout = T) that is still
+         pending OverdueFactor * T after it began, whatever trickles in meanwhile, has outlived its timeout
+         ("T2/read-outlives-its-timeout").  Nothing finer is demanded of the moment a timeout fires.
      T3  end-of-stream is reported as such, never as a message, and a message never
          as end-of-stream
    Where the statement is silent the monitor accepts: an Error (instead of an
@@ -43,9 +57,14 @@
    message became complete while the read was waiting; when a timeout fires. *)
 EXTENDS Naturals, Sequences
 
+\* slack of the bounded-time reading of T2: implementations that re-arm their timer a few times, round up or
+\* poll are all fine; a timeout that only bounds the gap between two arrivals is not
+OverdueFactor == 4
+
 Ev(e, c, n, to, r) == [e |-> e, c |-> c, n |-> n, to |-> to, r |-> r]
 EvSend(c, n)   == Ev("Send", c, n, 0, "")
 EvFeed(n)      == Ev("Feed", 0, n, 0, "")
+EvNoise(c, n)  == Ev("Noise", c, n, 0, "")
 EvClose        == Ev("Close", 0, 0, 0, "")
 EvReadBegin(to) == Ev("ReadBegin", 0, 0, to, "")
 EvReadEnd(r, c) == Ev("ReadEnd", c, 0, 0, r)
@@ -54,6 +73,9 @@ EvReadEnd(r, c) == Ev("ReadEnd", c, 0, 0, r)
 M0 == [v        |-> "ok",     \* verdict so far: "ok" or the label of the first clause broken
        cids     |-> <<>>,     \* content class of each message sent, in order
        ends     |-> <<>>,     \* stream offset at which each message ends
+       pad      |-> 0,        \* bytes that belong to no message behind the end of the last message sent
+       nends    |-> <<>>,     \* stream offset at which each non-message item of the ENVIRONMENT ends
+       nused    |-> 0,        \* ... how many of them the reader is through with (reported or skipped)
        fed      |-> 0,        \* bytes of the stream that reached the reader
        ndel     |-> 0,        \* messages delivered by successful reads
        closed   |-> FALSE,    \* end-of-stream reached the reader
@@ -63,12 +85,22 @@ M0 == [v        |-> "ok",     \* verdict so far: "ok" or the label of the first 
        tmoMid   |-> FALSE,    \* a read timed out while part of the next message was buffered
        senderClosed |-> FALSE]\* the sending transport was closed by its user (all writes had returned)
 
-Total(m) == IF m.ends = <<>> THEN 0 ELSE m.ends[Len(m.ends)]
+Total(m) == (IF m.ends = <<>> THEN 0 ELSE m.ends[Len(m.ends)]) + m.pad
 \* the next undelivered message has been fed completely
 Avail(m) == m.ndel < Len(m.ends) /\ m.ends[m.ndel + 1] <= m.fed
 Consumed(m) == IF m.ndel = 0 THEN 0 ELSE m.ends[m.ndel]
 \* some but not all bytes of the next message are buffered
 Partial(m) == m.fed > Consumed(m) /\ ~Avail(m)
+
+\* the next item of the stream the reader has not dealt with yet is a completely fed non-message item of the
+\* environment (it lies before the next undelivered message)
+NoiseNext(m) ==
+  LET j == m.nused + 1 IN
+  /\ j <= Len(m.nends)
+  /\ m.nends[j] <= m.fed
+  /\ (m.ndel < Len(m.ends) => m.nends[j] < m.ends[m.ndel + 1])
+\* number of the environment's non-message items that lie before stream offset x
+NoiseBefore(m, x) == Len(SelectSeq(m.nends, LAMBDA e : e < x))
 
 Fail(m, label) == [m EXCEPT !.v = label]
 
@@ -82,16 +114,19 @@ EndRead(m, ev) ==
          ELSE IF ev.c # m.cids[m.ndel + 1] THEN
               IF m.tmoMid THEN Fail(m, "T2/read-after-timeout-is-not-the-complete-next-message")
               ELSE Fail(m, "T1/not-the-next-message-intact")
-         ELSE [done EXCEPT !.ndel = m.ndel + 1, !.tmoMid = FALSE]
+         ELSE [done EXCEPT !.ndel = m.ndel + 1, !.tmoMid = FALSE,
+                           !.nused = NoiseBefore(m, m.ends[m.ndel + 1])]   \* skipped silently: fine
     [] r = "Timeout" ->
          IF m.availAtBegin THEN Fail(m, "T1/complete-message-not-delivered")
          ELSE [done EXCEPT !.tmoMid = m.tmoMid \/ Partial(m)]
     [] r = "Empty" ->
-         IF Avail(m) THEN Fail(m, "T3/message-returned-as-end-of-stream")
+         IF NoiseNext(m) THEN [done EXCEPT !.nused = m.nused + 1]   \* unspecified: the report for a non-message
+         ELSE IF Avail(m) THEN Fail(m, "T3/message-returned-as-end-of-stream")
          ELSE IF ~m.closed THEN Fail(m, "T3/end-of-stream-reported-on-open-stream")
          ELSE done
     [] r = "Error" ->
-         IF Avail(m) THEN
+         IF NoiseNext(m) THEN [done EXCEPT !.nused = m.nused + 1]   \* unspecified, as above
+         ELSE IF Avail(m) THEN
               IF m.tmoMid THEN Fail(m, "T2/read-after-timeout-is-not-the-complete-next-message")
               ELSE Fail(m, "T1/complete-message-not-delivered")
          ELSE done                                     \* unspecified: distinguishable from a message
@@ -99,6 +134,10 @@ EndRead(m, ev) ==
          IF Avail(m) THEN Fail(m, "T1/complete-message-not-delivered")
          ELSE IF m.closed THEN Fail(m, "T3/end-of-stream-not-reported")
          ELSE done
+    [] r = "Overdue" ->
+         IF m.to > 0 /\ ev.n >= OverdueFactor * m.to THEN Fail(m, "T2/read-outlives-its-timeout")
+         ELSE IF Avail(m) /\ ~NoiseNext(m) THEN Fail(m, "T1/complete-message-not-delivered")
+         ELSE done                                     \* no timeout, or not long enough to tell
     [] OTHER -> Fail(m, "H/unknown-read-result")
 
 \* H/ labels: the recorded event sequence is not one a harness may produce (machinery)
@@ -106,7 +145,11 @@ Step(m, ev) ==
   IF m.v # "ok" THEN m
   ELSE CASE ev.e = "Send" ->
               IF ev.n < 0 THEN Fail(m, "H/negative-send")   \* n = 0: nothing was put on the stream for it
-              ELSE [m EXCEPT !.cids = Append(m.cids, ev.c), !.ends = Append(m.ends, Total(m) + ev.n)]
+              ELSE [m EXCEPT !.cids = Append(m.cids, ev.c), !.ends = Append(m.ends, Total(m) + ev.n), !.pad = 0]
+         [] ev.e = "Noise" ->
+              IF ev.n < 1 \/ ev.c \notin {0, 1} THEN Fail(m, "H/malformed-noise")
+              ELSE IF ev.c = 1 THEN [m EXCEPT !.pad = m.pad + ev.n, !.nends = Append(m.nends, Total(m) + ev.n)]
+              ELSE [m EXCEPT !.pad = m.pad + ev.n]
          [] ev.e = "Feed" ->
               IF m.closed \/ m.fed + ev.n > Total(m) THEN Fail(m, "H/feed-of-bytes-never-sent")
               ELSE [m EXCEPT !.fed = m.fed + ev.n]
@@ -132,7 +175,7 @@ Verdict(evs) == RunFrom(M0, evs, 1).v
 
 T1Labels == {"T1/message-returned-before-it-was-sent-completely", "T1/not-the-next-message-intact",
              "T1/complete-message-not-delivered"}
-T2Labels == {"T2/read-after-timeout-is-not-the-complete-next-message"}
+T2Labels == {"T2/read-after-timeout-is-not-the-complete-next-message", "T2/read-outlives-its-timeout"}
 T3Labels == {"T3/end-of-stream-returned-as-message", "T3/message-returned-as-end-of-stream",
              "T3/end-of-stream-reported-on-open-stream", "T3/end-of-stream-not-reported"}
 =============================================================================
